@@ -425,6 +425,9 @@ func checkEncryptWith(run *vk.Run, t *Terms, w *world.World, c *termCase, recips
 				e.OaepBodies = append(e.OaepBodies, s.Body)
 			}
 		}
+	} else {
+		run.Violation(which+":own-output-does-not-parse:"+rsSig(c.Rs), fmt.Sprintf("recipients [%s], %d-byte plaintext: the header the library has just written is refused by its own parser: %v", rsSig(c.Rs), n, err), rp)
+		return
 	}
 	term := c.File
 	if armored {
